@@ -38,6 +38,9 @@ def core():
     D.append(Def('look_str', skips=[R(' +')], variants=[
         Var('Let', [R(r'let(?-u:\b)')]), Var('Id', [R('[a-z]+')]), Var('End', [R(r'[0-9]+$', prio=5)]), Var('Num', [R('[0-9]+')])],
         tags=('look', 'loop')))
+    D.append(Def('look_alt', variants=[
+        Var('BlockEnd', [R(r'\}|end(?-u:\b)')]), Var('Unknown', [R('.', prio=0)]), Var('BlockStart', [T('{')]),
+        Var('Kw', [R(r'fo+(?-u:\b)|bar')]), Var('F', [T('f')])], tags=('look', 'quick', 'unicode')))
     # --- negated classes folded into "range with exceptions" (non-looping, few edges), byte and str mode
     D.append(Def('neg_bytes', utf8=False, variants=[
         Var('Char', [R(b"'[^']'")]), Var('Quote', [T(b"'")]), Var('Esc', [R(rb'\\[^\n]')]), Var('Bs', [T(b'\\')]),
@@ -250,6 +253,21 @@ pub fn cb_filter_res(lex: &mut L) -> FilterResult<u8, u8> {
         Var('B', [R('b+', cb='cb_bool', cb_kind='bool', cb_fn='cb_bool')]),
         Var('G', [R('g+', cb='cb_filter_res', cb_kind='filter_result', cb_fn='cb_filter_res')], field='u8'),
         Var('P', [T('p')])], tags=('cb', 'cb_err', 'quick')))
+    D.append(Def('cb_reject', error='MyErr', error_cb='cb_err', prelude=CB_PRELUDE + '''
+pub fn cb_err(lex: &mut L) -> MyErr { MyErr::Bad(lex.slice().len() as u8) }
+pub fn cb_three(lex: &mut L) -> bool { lex.slice().len() != 3 }
+pub fn cb_bump_reject(lex: &mut L) -> bool {
+    let r = lex.remainder().as_bytes();
+    if !r.is_empty() && r[0] == b'!' { lex.bump(1); return false; }
+    true
+}
+pub fn cb_opt_unit(lex: &mut L) -> Option<()> { if first(lex) == b'q' && lex.slice().len() == 2 { None } else { Some(()) } }
+''', variants=[
+        Var('Int', [R('[0-9]+', cb='cb_three', cb_kind='bool', cb_fn='cb_three')]),
+        Var('Float', [R(r'[0-9]+\.[0-9]+')]),
+        Var('W', [R('w+', cb='cb_bump_reject', cb_kind='bool', cb_fn='cb_bump_reject')]),
+        Var('Q', [R('q+', cb='cb_opt_unit', cb_kind='option_unit', cb_fn='cb_opt_unit')]),
+        Var('Dot', [T('.')]), Var('Bang', [T('!')])], tags=('cb', 'cb_err', 'no_consumption_rule', 'quick')))
     # byte-mode lexer whose callback bumps by a length taken from the match (records ending exactly at the end of input)
     D.append(Def('cb_bump_bytes', utf8=False, prelude='''
 pub type L<'s> = Lexer<'s, Tok>;
@@ -285,6 +303,17 @@ def literal_family(seed=0, thorough=False):
         chunk = metas[i:i + 4]
         D.append(Def(f'lit_meta{i // 4}', variants=[Var(f'T{j}', [T(m)]) for j, m in enumerate(chunk)] + [
             Var('W', [R('[a-z]')])], tags=('lit', 'quick') if i == 0 else ('lit',)))
+    punct = list('!"#$%&\'()*+,-./:;<=>?@[\\]^_`{|}~')
+    for gi in range(0, len(punct), 8):
+        chunk = punct[gi:gi + 8]
+        D.append(Def(f'lit_punct{gi // 8}', variants=[Var(f'P{j}', [T('x' + c + c)]) for j, c in enumerate(chunk)] + [
+            Var('X', [T('x')])], tags=('lit', 'quick') if gi == 16 else ('lit',)))
+        D.append(Def(f'ic_punct_b{gi // 8}', utf8=False, variants=[
+            Var(f'P{j}', [T(('x' + c + 'y').encode(), ignore_case=True)]) for j, c in enumerate(chunk)] + [Var('X', [T(b'x')])],
+            tags=('lit', 'ic', 'bytes', 'quick') if gi == 16 else ('lit', 'ic', 'bytes')))
+        D.append(Def(f'ic_punct_s{gi // 8}', variants=[
+            Var(f'P{j}', [T('x' + c + 'y', ignore_case=True)]) for j, c in enumerate(chunk)] + [Var('X', [T('x')])],
+            tags=('lit', 'ic')))
     D.append(Def('lit_unicode', variants=[Var('A', [T('é')]), Var('B', [T('Éa')]), Var('C', [T('ß')]), Var('D', [T('Σσ')]),
                                           Var('E', [T('日本')]), Var('F', [T('😀')])], tags=('lit', 'unicode', 'quick')))
     D.append(Def('lit_bytes', utf8=False, variants=[Var('A', [T(b'\xff\x00')]), Var('B', [T(b'\x80')]), Var('C', [T(b'a.b')]),
@@ -343,6 +372,11 @@ def subpattern_family():
     D.append(Def('sub_mixed_mode', utf8=False, subs=[('g', r'[α-ω]'), ('any', '.'), ('raw', b'[\x80-\xFF]')], variants=[
         Var('A', [R(b'x(?&g)+')]), Var('B', [R(b'<(?&any)>')]), Var('C', [R('(?-u)\\xFE(?&any)')]), Var('R', [R(b'r(?&raw)')])],
         tags=('subpat', 'bytes', 'quick')))
+    D.append(Def('sub_same_a', subs=[('d', '[0-9]'), ('w', '(?&d)+x')], variants=[Var('N', [R('n(?&d)+')]), Var('W', [R('(?&w)')])],
+                 tags=('subpat', 'quick')))
+    D.append(Def('sub_same_b', subs=[('d', '[a-f]'), ('w', '(?&d)+x')], variants=[Var('N', [R('n(?&d)+')]), Var('W', [R('(?&w)')])],
+                 tags=('subpat', 'quick')))
+    D.append(Def('rej_sub_same_c', variants=[Var('N', [R('n(?&d)+')])], expect='reject', tags=('subpat',)))
     D.append(Def('rej_sub_undef2', subs=[('a', 'x')], variants=[Var('A', [R('(?&a)(?&b)')])], expect='reject', tags=('subpat',)))
     D.append(Def('rej_sub_forward', subs=[('a', '(?&b)x'), ('b', 'y')], variants=[Var('A', [R('(?&a)')])], expect='reject',
                  tags=('subpat',)))
